@@ -27,9 +27,11 @@ def fstr_eq(a, b):
 
 
 class Evaluator:
-    def __init__(self, lang, consts=None):
+    def __init__(self, lang, consts=None, helpers=None):
         self.lang = lang
         self.consts = consts or {}
+        self.helpers = helpers or {}      # callee name -> python callable folding the helper on constants
+        self._memo = {}
 
     def ev(self, e, env):
         """-> constant expression, or None"""
@@ -45,8 +47,18 @@ class Evaluator:
         if k == 'call':
             name = e[1]
             args = [self.ev(a, env) for a in e[2:]]
-            if name == 'name_starts_with' and len(args) == 2 and all(a and a[0] == 'str' for a in args):
-                return _num(1 if args[0][1].startswith(args[1][1]) else 0)
+            if name in self.helpers and all(a is not None for a in args):
+                key = (name,) + tuple(args)
+                if key not in self._memo:
+                    r = self.helpers[name](*[a[1] if a[0] == 'str' else (int(a[1]) if a[1].denominator == 1
+                                                                         else float(a[1])) for a in args])
+                    if isinstance(r, bool) or isinstance(r, int):
+                        self._memo[key] = _num(int(r))
+                    elif isinstance(r, str):
+                        self._memo[key] = ('str', r)
+                    else:
+                        self._memo[key] = None
+                return self._memo[key]
             return None
         if k != 'op':
             return None
